@@ -3,6 +3,7 @@
 # harness sources, so that work can continue while /repo itself carries a seeded change. Never used by MANIFEST.
 set -e
 prop=$1; tier=${2:-quick}; prof=${3:-checked}
+[ -d /tmp/cleanrepo2 ] || git -C /repo worktree add -q --detach /tmp/cleanrepo2 HEAD   # scratch copy; remove with: git -C /repo worktree remove --force /tmp/cleanrepo2
 mkdir -p /tmp/devharness
 rsync -a --delete --exclude target /verif/harness/ /tmp/devharness/
 sed -i 's#path = "/repo"#path = "/tmp/cleanrepo2"#' /tmp/devharness/Cargo.toml
